@@ -643,6 +643,36 @@ func c15TOC(c *core.Ctx, r *rng.R) *core.Result {
 	var heads []*headingRec
 	var log []string
 	serial := 0
+	numericHeadingIDs := false
+	if r.Chance(1, 6) {
+		// a document of another producer (WPS Office and templates made with it): the heading styles have numeric ids, "2" is
+		// the style named "heading 1" and so on up to "10" = "heading 9"; what makes a paragraph a heading of level n is that
+		// its style is the one named "heading n"
+		var st, body strings.Builder
+		st.WriteString(`<w:style w:type="paragraph" w:default="1" w:styleId="a1"><w:name w:val="Normal"/></w:style>`)
+		for l := 1; l <= 9; l++ {
+			st.WriteString(fmt.Sprintf(`<w:style w:type="paragraph" w:styleId="%d"><w:name w:val="heading %d"/><w:basedOn w:val="a1"/><w:pPr><w:outlineLvl w:val="%d"/></w:pPr></w:style>`, l+1, l, l-1))
+		}
+		for i, n := 0, r.Range(1, 6); i < n; i++ {
+			serial++
+			h := &headingRec{token: fmt.Sprintf("⟦T%d-%d⟧", c.Case, serial), level: r.Range(1, 9)}
+			h.text = h.token + " opened"
+			heads = append(heads, h)
+			body.WriteString(fmt.Sprintf(`<w:p><w:pPr><w:pStyle w:val="%d"/></w:pPr><w:r><w:t>%s</w:t></w:r></w:p><w:p><w:r><w:t>text</w:t></w:r></w:p>`, h.level+1, h.text))
+		}
+		raw := gen.MinimalPackage(func(m map[string]string) {
+			m["word/styles.xml"] = strings.Replace(m["word/styles.xml"], `<w:style w:type="paragraph" w:styleId="Normal"><w:name w:val="Normal"/></w:style>`, st.String(), 1)
+			m["word/document.xml"] = strings.Replace(m["word/document.xml"], `<w:p><w:r><w:t>hello</w:t></w:r></w:p>`, body.String(), 1)
+		})
+		d2, err := document.OpenFromMemory(io.NopCloser(bytes.NewReader(raw)))
+		if err != nil || d2 == nil || d2.Body == nil {
+			res.Inconcl = fmt.Sprintf("harness: the package with numeric heading style ids does not open: %v", err)
+			return res
+		}
+		d, numericHeadingIDs = d2, true
+		log = append(log, fmt.Sprintf("Open(package-with-numeric-heading-ids,%d-headings)", len(heads)))
+		res.Count("documents_with_numeric_heading_style_ids", 1)
+	}
 	requested := 0 // max level of the table of contents that currently exists (0 = none)
 	note := func() string { return "calls: " + strings.Join(tail(log, 16), " ") }
 	expect := func(max int) []tocEntry {
@@ -709,7 +739,15 @@ func c15TOC(c *core.Ctx, r *rng.R) *core.Result {
 			h := &headingRec{token: fmt.Sprintf("⟦T%d-%d⟧", c.Case, serial), level: r.Range(1, 9)}
 			h.text = h.token + " " + gen.SafeString(r)
 			cg := core.Catch(func() {
-				switch r.Intn(4) {
+				which := r.Intn(4)
+				if numericHeadingIDs && r.Bool() {
+					which = 4
+				}
+				switch which {
+				case 4:
+					// a heading in the document's own heading style
+					p := d.AddParagraph(h.text)
+					p.SetStyle(fmt.Sprint(h.level + 1))
 				case 0:
 					d.AddHeadingParagraph(h.text, h.level)
 				case 1:
